@@ -2,6 +2,7 @@
 package netpoll
 
 import (
+	"os"
 	"context"
 	"fmt"
 	"net"
@@ -72,7 +73,17 @@ func (p *vc10Pool) open() *vc10Conn {
 	vc := &vc10Conn{id: p.next, conn: c, inner: vcInner(c), peer: peer, seed: p.t.R.next()}
 	p.next++
 	vc.op, vc.fd = vc.inner.operator, vc.inner.fd
-	c.AddCloseCallback(func(Connection) error { atomic.AddInt32(&vc.cbRan, 1); return nil })
+	slow := time.Duration(0)
+	if p.t.R.chance(25) && os.Getenv("VERIF_C10_NOSLOW") == "" {
+		slow = time.Duration(p.t.R.rng(1, 6)) * time.Millisecond // keeps the poller's hang-up goroutine busy
+	}
+	c.AddCloseCallback(func(Connection) error {
+		atomic.AddInt32(&vc.cbRan, 1)
+		if slow > 0 {
+			time.Sleep(slow)
+		}
+		return nil
+	})
 	c.SetOnRequest(func(ctx context.Context, c Connection) error {
 		atomic.AddInt32(&vc.reqs, 1)
 		n := c.Reader().Len()
@@ -133,6 +144,10 @@ func (vc *vc10Conn) echo(n int, d time.Duration) error {
 			m += k
 		}
 		if err != nil {
+			if ne, ok := err.(net.Error); !ok || !ne.Timeout() {
+				// EOF or reset: the netpoll side of a live connection was closed - no timing involved
+				return fmt.Errorf("echo of connection %d ended after %d of %d bytes with %v: the connection was closed under its owner", vc.id, m, n, err)
+			}
 			return &vc10Stall{id: vc.id, got: m, want: n, err: err}
 		}
 	}
@@ -222,7 +237,7 @@ func vcRunC10(t *vcTrial) {
 	}
 	calls := vc12Calls()
 	staleCalls, reuses, fdReuses, windows := 0, 0, 0, 0
-	closesUnderWrite := 0
+	closesUnderWrite, massHups := 0, 0
 	for step := 0; step < nops && !t.Violated() && t.inconclusive == ""; step++ {
 		switch k := r.intn(10); {
 		case k < 2 && len(pool.live) < 8:
@@ -292,6 +307,48 @@ func vcRunC10(t *vcTrial) {
 			}
 			vc.closed = true
 			pool.dead = append(pool.dead, vc)
+		case k == 5 && len(pool.live) > 3 && r.chance(50):
+			// several peers hang up at once (their hang-ups are queued in one batch and run one after
+			// the other on the poller's hang-up goroutine, some with a slow close callback); the user
+			// closes the last of them himself while its hang-up may still be queued, and new
+			// connections are opened at once: a queued hang-up must never reach the new owner of a slot
+			nh := r.rng(2, 3)
+			var group []*vc10Conn
+			for i := 0; i < nh && len(pool.live) > 1; i++ {
+				j := r.intn(len(pool.live))
+				group = append(group, pool.live[j])
+				pool.live = append(pool.live[:j], pool.live[j+1:]...)
+			}
+			for _, g := range group {
+				g.peer.Close()
+			}
+			time.Sleep(time.Duration(r.intn(400)) * time.Microsecond)
+			group[len(group)-1].conn.Close()
+			for _, g := range group {
+				g.closed = true
+				pool.dead = append(pool.dead, g)
+			}
+			for n := 0; n < len(group) && len(pool.live) < 8; n++ {
+				nv := pool.open()
+				if nv == nil {
+					return
+				}
+				for _, d := range pool.dead {
+					if d.op == nv.op {
+						reuses++
+					}
+				}
+				time.Sleep(time.Duration(r.intn(300)) * time.Microsecond)
+			}
+			time.Sleep(time.Duration(r.rng(0, 8)) * time.Millisecond)
+			for _, l := range pool.live {
+				if err := l.echo(r.rng(1, 500), 5*time.Second); err != nil {
+					pool.judgeEcho(l, err, append(hist, "mass-hangup"))
+					return
+				}
+			}
+			massHups++
+			hist = append(hist, fmt.Sprintf("mass-hangup(%d)", len(group)))
 		case k == 4 && len(pool.live) > 1 && r.chance(50):
 			// close under write: one writer goroutine keeps sending on A while this goroutine closes A
 			// and opens new connections at once (A's descriptor number is re-issued immediately). A
@@ -315,10 +372,12 @@ func vcRunC10(t *vcTrial) {
 				junk[i] = 0xAB
 			}
 			wdone := make(chan struct{})
+			var wIter int32
 			go func() {
 				defer close(wdone)
 				defer func() { recover() }() // a writer racing Close may hit D22; not this step's subject
 				for i := 0; i < 40; i++ {
+					atomic.AddInt32(&wIter, 1)
 					if _, err := vc.conn.Write(junk); err != nil {
 						return
 					}
@@ -347,8 +406,18 @@ func vcRunC10(t *vcTrial) {
 			}
 			select {
 			case <-wdone:
-			case <-time.After(10 * time.Second):
-				t.Inconclusive("writer on a closed connection did not stop within 10s")
+			case <-time.After(40 * time.Second):
+				it0 := atomic.LoadInt32(&wIter)
+				st0 := vcStacksContaining("connection).Write")
+				time.Sleep(300 * time.Millisecond)
+				// walk the output chain (diagnostic, racy): a cycle or an absurd length shows a corrupted chain
+				steps, cyc := 0, false
+				ob := vc.inner.outputBuffer
+				for n := ob.head; n != nil && steps < 2000000; n = n.next {
+					steps++
+				}
+				cyc = steps >= 2000000
+				t.Inconclusive("writer on a closed connection did not stop within 40s; Write iterations %d then %d (300 ms later), active=%v closedByUser=%v flushing=%d chain steps=%d cycle=%v outLen=%d; stacks: %.1500s ||| %.1500s", it0, atomic.LoadInt32(&wIter), vc.inner.IsActive(), vc.inner.isCloseBy(user), vc.inner.status(flushing), steps, cyc, ob.Len(), st0, vcStacksContaining("connection).Write"))
 				return
 			}
 			select {
@@ -427,6 +496,7 @@ func vcRunC10(t *vcTrial) {
 	t.P("history_tail", hist[vcMaxInt(0, len(hist)-12):])
 	t.Stat("cache_exhausting_fillers", fillers)
 	t.Stat("closes_under_write", closesUnderWrite)
+	t.Stat("mass_hangups", massHups)
 	t.Stat("echoes_slower_than_5s", int(atomic.SwapInt64(&vc10SlowEchoes, 0)))
 	t.Stat("stale_calls", staleCalls)
 	t.Stat("slot_reuses", reuses)
